@@ -7,3 +7,4 @@ import Lungo.Props.C18
 #print axioms Lungo.C18.delete_leaves_nothing
 #print axioms Lungo.C18.resume_equivalent
 #print axioms Lungo.C18.seek_invalid_whence
+#print axioms Lungo.C18.delete_tracked_leaves_nothing
